@@ -11,7 +11,7 @@ from . import common
 
 
 # properties whose thorough-scope streams are affordable on every change to their anchored files (a few minutes)
-DEEP_ON_CHANGE = {"C01", "C02", "C05", "C06", "C08", "C09", "C10", "C16", "C20"}
+DEEP_ON_CHANGE = {"C01", "C02", "C04", "C05", "C06", "C08", "C09", "C10", "C16", "C19", "C20"}
 
 
 def generic_replay(mod, prop: str, tier: str, path: str) -> int:
